@@ -336,12 +336,13 @@ static Driver drive(World &w, const Scenario &sc, Reporter &rep) {
         }
         if (!rep.check(k, w.project())) { w.failed = true; fflush(stdout); }
     }
-    // whatever is still alive dies with the driver's scope
-    for (int k = 1; k <= w.maxobj; k++) w.destroy(w.slots[k]);
     if (w.failed) {
-        // the library may have gone wrong: stay harmlessly resumable instead of reaching final suspend
+        // the library has gone wrong: abandon the objects (their arrays may hold garbage) and stay
+        // harmlessly resumable instead of reaching the final suspend point
         for (;;) co_await std::suspend_always{};
     }
+    // whatever is still alive dies with the driver's scope (Finish, or the end of a truncated path)
+    for (int k = 1; k <= w.maxobj; k++) w.destroy(w.slots[k]);
 }
 
 static void run(const Scenario &sc, Reporter &rep) {
